@@ -46,8 +46,11 @@ def scenarios(quick):
     a1, a2, a3 = C('athlon_score', 'M', '100', 10.5), C('athlon_score', 'F', 'WT', 12.0), C('athlon_score', 'M', 'LJ', 7.1, age=50)
     p1, p2 = C('athlon_performance_needed', 'M', '100', 1000), C('athlon_performance_needed', 'F', 'HJ', 800)
     a4 = C('athlon_score', 'F', 'HJ', 1.5, age=60)
+    # same function, same row, different argument (a memo of "the last answer" keyed too coarsely shows only then)
+    p1b, a3b = C('athlon_performance_needed', 'M', '100', 700), C('athlon_score', 'M', 'LJ', 6.2, age=65)
     add('athlon', [(a1, a2), (a1, a1), (a1, p2), (p1, p2), (a3, a2), (p1, a1), (a3, a4), (a4, a3), (a3, a3)] if not quick else
         [(a1, a2), (a1, p2), (p1, p2), (a3, a2), (a3, a4)])
+    add('athlon', [(p1, p1b), (a3, a3b)], variants=('warm',) if quick else ('cold', 'warm'))
     # scorers without module-level mutable state today: different-argument pairs, so that a memo added later is seen
     t1, t2 = C('tyrving_score', 'M', 15, '100', '12.10'), C('tyrving_score', 'F', 14, 'HJ', 1.5)
     q1, q2 = C('qkids_score', 'QKSEC', '100', '13.5'), C('qkids_score', 'QKWL', 'LJ', 3.2)
@@ -60,7 +63,9 @@ def scenarios(quick):
     add('stateless', [(t1, t2), (q1, q2), (b1, b2), (t3, t4), (q1, q3), (b1, b3)] if quick else
         [(t1, t2), (q1, q2), (b1, b2), (t2, t1), (t1, q1), (b1, t2), (t3, t4), (t4, t3), (q1, q3), (b1, b3)], variants=('warm',))
     h1, h2 = C('hungarian_score', 'M', 'OUT', '100', 10.5), C('hungarian_score', 'F', 'IND', 'HJ', 1.8)
+    h1b = C('hungarian_score', 'M', 'OUT', '100', 11.3)
     add('hungarian', [(h1, h2), (h1, h1), (h2, h1)])
+    add('hungarian', [(h1, h1b)], variants=('warm',) if quick else ('cold', 'warm'))
     s1, s2 = C('sportshall_score', 'SLJ', '2.10'), C('sportshall_score', '800', '150')
     # the vertical jump is the one event tabulated in other units (cm): same-event pairs for it, so that per-event lazily
     # built state is raced by two first scorings of that event (seed C16-i: a non-idempotent in-place conversion)
@@ -79,7 +84,9 @@ def scenarios(quick):
     add('wma', [(w1, w2), (w1, w1), (w1, w3), (w3, w4), (w5, w2), (w5, w6), (w6, w1), (w3, w5), (w7, w8), (w9, w10), (w9, w11), (w12, w9), (w12, w10), (w9, w12)] if not quick else
         [(w1, w2), (w1, w3), (w3, w4), (w5, w6), (w6, w1), (w7, w8), (w9, w10), (w12, w9)])
     g1, g2, g3 = C('wma_athlon_age_factor', 'M', 50, '100'), C('wma_athlon_age_factor', 'F', 60, 'LJ'), C('wma_athlon_age_grade', 'M', 66, '60H', '9.9')
+    g3b, g1b = C('wma_athlon_age_grade', 'M', 66, '60H', '11.2'), C('wma_athlon_age_factor', 'M', 70, '100')
     add('wma_athlon', [(g1, g2), (g1, g1), (g3, g2)])
+    add('wma_athlon', [(g3, g3b), (g1, g1b)], variants=('warm',) if quick else ('cold', 'warm'))
     sv = lambda f, v='Draft4Validator', ef=False: C('schema_valid', f, v, ef=ef)
     va = lambda j, s, ef=False: C('valid_against_schema', j, s, ef=ef)
     for fill in (19, 20):
